@@ -16,6 +16,15 @@ WORK = os.environ.get('L21V_WORK', '/var/tmp/l21v-work')
 HARNESS = os.path.join(VERIF, 'harness')
 GEN = os.path.join(WORK, 'gen')
 LOGS = os.path.join(WORK, 'logs')
+KDIR = WORK  # where the kani target dirs of this run live
+
+
+def use_workspace(tag):
+    """isolate concurrent checks: generated files, logs and Kani target dirs are per property"""
+    global GEN, LOGS, KDIR
+    KDIR = os.path.join(WORK, tag)
+    GEN = os.path.join(KDIR, 'gen')
+    LOGS = os.path.join(KDIR, 'logs')
 NCPU = os.cpu_count() or 4
 
 # ---- where harnesses live --------------------------------------------------------------
@@ -43,7 +52,7 @@ def units():
     return u
 
 
-HARNESS_BLOCK = re.compile(r'harnesses!\s*\{\s*(\w+)\s*;(.*?)\n\}', re.S)
+HARNESS_BLOCK = re.compile(r'harnesses!\s*\{\s*(\w+)\s*,\s*"([\w.]+)"\s*;(.*?)\n\}', re.S)
 
 
 def discover():
@@ -56,7 +65,8 @@ def discover():
             stubs = re.findall(r'^// stubs: (.*)$', src, re.M)
             bounds = dict(re.findall(r'^// bound (\w+): (.*)$', src, re.M))
             for m in HARNESS_BLOCK.finditer(src):
-                body = re.sub(r'//[^\n]*', '', m.group(2))
+                sel = m.group(2)
+                body = re.sub(r'//[^\n]*', '', m.group(3))
                 # split entries on ';' keeping attribute text
                 for ent in body.split(';'):
                     ent = ent.strip()
@@ -66,7 +76,7 @@ def discover():
                     name = re.sub(r'#\[((?:[^\[\]]|\[[^\]]*\])*)\]', '', ent).strip()
                     if not re.match(r'^\w+$', name):
                         raise SystemExit(f'cannot parse harness entry in {f}: {ent!r}')
-                    out.append(dict(name=name, unit=unit, full=f'{modpath}::{name}', file=f, attrs=attrs,
+                    out.append(dict(name=name, unit=unit, full=f'{modpath}::{name}', file=f, attrs=attrs, sel=sel,
                                     encodes=enc, stubs=stubs, bounds=bounds.get(name, bounds.get('*', ''))))
     names = [h['name'] for h in out]
     dup = {n for n in names if names.count(n) > 1}
@@ -80,7 +90,7 @@ def prop_of(name):
 
 
 def tier_of(name):
-    return {'q': 'quick', 't': 'thorough', 's': 'sampled'}[name[4]]
+    return {'q': 'quick', 't': 'thorough', 's': 'sampled', 'x': 'experimental'}[name[4]]
 
 
 # ---- environment / setup --------------------------------------------------------------
@@ -112,13 +122,23 @@ def sh(cmd, cwd=None, extra_env=None, timeout=None, log=None):
 
 
 def ensure_dirs():
-    for d in (WORK, GEN, LOGS):
+    for d in (WORK, KDIR, GEN, LOGS):
         os.makedirs(d, exist_ok=True)
 
 
 def setup_native(verbose=True):
     """build the native replayer (dev + release) and regenerate the libm tables from the platform"""
     ensure_dirs()
+    import fcntl
+    lock = open(os.path.join(WORK, 'native.lock'), 'w')
+    fcntl.flock(lock, fcntl.LOCK_EX)
+    try:
+        return _setup_native(verbose)
+    finally:
+        fcntl.flock(lock, fcntl.LOCK_UN)
+
+
+def _setup_native(verbose=True):
     ext = os.path.join(HARNESS, 'ext')
     shutil.copyfile(os.path.join(REPO, 'Cargo.lock'), os.path.join(ext, 'Cargo.lock'))
     res = {}
@@ -140,14 +160,36 @@ def setup_native(verbose=True):
 
 
 def kani_base(unit, u):
-    cmd = ['cargo', 'kani', '-Z', 'stubbing', '--target-dir', os.path.join(WORK, f'kani-{unit}')]
+    cmd = ['cargo', 'kani', '-Z', 'stubbing', '--target-dir', os.path.join(KDIR, f'kani-{unit}')]
     if u['pkg']:
         cmd += ['-p', u['pkg']]
     return cmd
 
 
+def write_selection(all_h, selected):
+    """the #[kani::proof] wrappers of the harnesses selected for this run, one file per harness source file"""
+    names = {h['name'] for h in selected}
+    files = {}
+    for h in all_h:
+        files.setdefault(h['sel'], [])
+        if h['name'] in names:
+            attrs = ''.join(f'#[{a}]\n' for a in h['attrs'])
+            files[h['sel']].append(f'#[kani::proof]\n{attrs}pub fn {h["name"]}() {{\n    let mut s = KaniSrc;\n    super::{h["name"]}(&mut s);\n}}\n')
+    os.makedirs(GEN, exist_ok=True)
+    for f, items in files.items():
+        txt = '// generated by the l21v driver for this run\n' + '\n'.join(items)
+        path = os.path.join(GEN, f)
+        if not os.path.exists(path) or open(path).read() != txt:
+            open(path, 'w').write(txt)
+
+
 def kani_build(unit, u):
-    """compile the crate + harnesses once (no verification) so per-harness runs only run CBMC"""
+    """compile the crate + the selected harnesses once (no verification) so per-harness runs only run CBMC"""
+    tdir = os.path.join(KDIR, f'kani-{unit}')
+    base = os.path.join(WORK, 'base', f'kani-{unit}')
+    if not os.path.exists(tdir) and os.path.exists(base) and KDIR != os.path.join(WORK, 'base'):
+        # seed from the dependency cache built by --setup (saves ~40 s of compiling serde & co)
+        subprocess.run(['cp', '-a', base, tdir])
     if unit == 'ext':
         shutil.copyfile(os.path.join(REPO, 'Cargo.lock'), os.path.join(u['cwd'], 'Cargo.lock'))
     cmd = kani_base(unit, u) + ['--only-codegen']
@@ -213,7 +255,10 @@ def classify(pr, rc):
 
 def run_harness(h, u, tmo, mem_gb, playback=False):
     cmd = kani_base(h['unit'], u) + ['--harness', h['full'], '--exact']
-    extra = HARNESS_ARGS.get(h['name'], [])
+    extra = list(HARNESS_ARGS.get(h['name'], []))
+    for pat, args in HARNESS_ARGS_RE:
+        if re.search(pat, h['name']):
+            extra += args
     cmd += extra
     if playback:
         cmd += ['-Z', 'concrete-playback', '--concrete-playback=print']
@@ -223,12 +268,18 @@ def run_harness(h, u, tmo, mem_gb, playback=False):
     return rc, out, dt, log
 
 
+# extra cargo-kani arguments per harness-name pattern
+HARNESS_ARGS_RE = [
+    # C10 P-level asserts absence of panics (Rust-level checks); CBMC's raw-pointer checks inside std are switched off there
+    # because `Vec::new()` + push inside the parsers trips a pointer-model artefact (DESIGN §8)
+    (r'^c10_._p_', ['-Z', 'unstable-options', '--no-memory-safety-checks']),
+]
 HARNESS_ARGS = {}
 
 
 def IS_CEX(desc):
     """cover goals that are the negation of a vcheck! assertion carry the assertion's id (cNN.…)"""
-    return re.match(r'^"?c\d\d\.', desc) is not None
+    return re.match(r'^"?c\d\d[. ]', desc) is not None
 
 
 PLAYBACK_RE = re.compile(
@@ -237,6 +288,9 @@ PLAYBACK_RE = re.compile(
 
 def parse_playback(out):
     res = []
+    # a harness without symbolic inputs still fails on a concrete path: replay with no values
+    if 'VERIFICATION:- FAILED' in out and 'concrete_vals' not in out:
+        res.append(dict(kind='assertion', desc='(no symbolic inputs)', vals=[]))
     for m in PLAYBACK_RE.finditer(out):
         kind, desc, body = m.group(1), m.group(2), m.group(3)
         vals = [[int(x) for x in re.findall(r'\d+', v)] for v in re.findall(r'vec!\[(.*?)\]', body)]
@@ -307,9 +361,10 @@ def match_known(known, prop, harness, replay):
 
 
 # ---- per-property plan ----------------------------------------------------------------------
-TIMEOUTS = {'quick': 600, 'thorough': 3600}
+TIMEOUTS = {'quick': 900, 'thorough': 3600}
 MEM_GB = {'quick': 10, 'thorough': 16}
-SAMPLE_K = {'C12': 6}  # how many `s`-tier (enumerated instance) harnesses the quick tier runs (default 12), chosen by VERIF_SEED
+PROP_MEM_GB = {'C09': 20}
+SAMPLE_K = {'C12': 6, 'C01': 5, 'C02': 6, 'C03': 5, 'C10': 8}  # how many `s`-tier (enumerated instance) harnesses the quick tier runs (default 12), chosen by VERIF_SEED
 PROP_BUDGET = {'quick': 900, 'thorough': 3 * 3600}
 
 
@@ -317,6 +372,8 @@ def select(all_h, prop, tier, seed, only=None):
     hs = [h for h in all_h if prop_of(h['name']) == prop]
     if only:
         return [h for h in hs if re.search(only, h['name'])]
+    # 'x' harnesses are experiments that do not (yet) finish inside the budgets; they run only with --only
+    hs = [h for h in hs if tier_of(h['name']) != 'experimental']
     if tier == 'thorough':
         return hs
     q = [h for h in hs if tier_of(h['name']) == 'quick']
@@ -331,6 +388,7 @@ def select(all_h, prop, tier, seed, only=None):
 
 def check_property(prop, tier, seed, only=None, jobs=None):
     t0 = time.time()
+    use_workspace(prop)
     ensure_dirs()
     all_h = discover()
     hs = select(all_h, prop, tier, seed, only)
@@ -343,6 +401,7 @@ def check_property(prop, tier, seed, only=None, jobs=None):
     us = units()
     need_units = sorted({h['unit'] for h in hs})
     build_info = {}
+    write_selection(all_h, hs)
     for unit in need_units:
         rc, out, dt = kani_build(unit, us[unit])
         build_info[unit] = dict(rc=rc, s=round(dt, 1))
@@ -354,7 +413,7 @@ def check_property(prop, tier, seed, only=None, jobs=None):
             return 2
     jobs = jobs or max(1, min(len(hs), NCPU - 2 if tier == 'quick' else NCPU // 2))
     tmo = int(os.environ.get('L21V_TIMEOUT', TIMEOUTS[tier]))
-    mem = MEM_GB[tier]
+    mem = int(os.environ.get('L21V_MEM_GB', PROP_MEM_GB.get(prop, MEM_GB[tier])))
     if tier == 'thorough':
         # memory-bound box: 62 GB, keep jobs*mem below ~56 GB
         jobs = min(jobs, max(1, 56 // mem))
@@ -486,7 +545,7 @@ def write_evidence(prop, tier, seed, results, t0, note=None, build_info=None, vi
                 decided_checks += 1
             # non-trivial: a harness-level property assertion (vcheck id) that was reachable and decided, or a
             # satisfied cover witness; automatically generated overflow/bounds checks are not counted here
-            if c['status'] in ('SUCCESS', 'FAILURE') and re.match(r'^"?c\d\d\.', c['desc']):
+            if c['status'] in ('SUCCESS', 'FAILURE') and re.match(r'^"?c\d\d[. ]', c['desc']):
                 nontrivial.add((h['name'], c['desc']))
             if c['status'] == 'SATISFIED' and not IS_CEX(c['desc']):
                 nontrivial.add((h['name'], 'cover:' + c['desc']))
@@ -549,6 +608,7 @@ def write_evidence(prop, tier, seed, results, t0, note=None, build_info=None, vi
 
 
 def do_replay(prop, path):
+    use_workspace(prop)
     if not setup_native(verbose=False):
         return 2
     rep = json.load(open(path))
@@ -580,8 +640,10 @@ def main(argv):
     a = ap.parse_args(argv)
     seed = int(os.environ.get('VERIF_SEED', '0') or 0)
     if a.setup:
+        use_workspace('base')
         ok = setup_native()
         if ok:
+            write_selection(discover(), [])
             for unit, u in units().items():
                 rc, out, dt = kani_build(unit, u)
                 print(f'[setup] kani build {unit}: rc={rc} {dt:.0f}s')
